@@ -1,9 +1,10 @@
 """Child process of the C15 check: runs a command history against a maildir store and dies at the k-th filesystem operation.
 
-usage: c15_child.py <repo> <base> <layout> <history.json> <k | -1> <ack log> <tmpdir | ->
+usage: c15_child.py <repo> <base> <layout> <history.json> <k | -1> <ack log> <tmpdir | -> [before | after]
 Counted operations (the boundaries a `kill -9` can fall between): os.rename/replace/remove/unlink/rmdir/mkdir/link/utime,
 os.open with a creating/writing flag, builtins.open with a writing mode.  The process exits with os._exit(17) *instead of*
-performing operation number k.  Every completed command is appended to the ack log with fsync before the next one starts.
+performing operation number k (mode `before`), or immediately after operation k has returned (mode `after`: whatever the
+process still holds in user-space buffers at that moment is lost, as with SIGKILL).  Every completed command is appended to the ack log with fsync before the next one starts.
 """
 import asyncio
 import builtins
@@ -15,6 +16,7 @@ import tempfile
 
 def main():
     repo, base, layout, hist_path, k, ack_path, tmpdir = sys.argv[1:8]
+    mode = sys.argv[8] if len(sys.argv) > 8 else 'before'
     k = int(k)
     sys.path.insert(0, os.path.dirname(os.path.dirname(os.path.abspath(__file__))))
     sys.path.insert(0, repo)
@@ -36,9 +38,12 @@ def main():
             if not (tmpdir != '-' and p.startswith(tmpdir)):
                 return
         if state['count'] == k:
-            os.write(ack_fd, (json.dumps(dict(crash_at=k, op=kind, path=p[len(base):] if p.startswith(base) else p)) + '\n').encode())
-            os.fsync(ack_fd)
-            os._exit(17)
+            if mode == 'after':
+                state['die'] = dict(crash_at=k, op=kind, path=p[len(base):] if p.startswith(base) else p, after=True)
+            else:
+                os.write(ack_fd, (json.dumps(dict(crash_at=k, op=kind, path=p[len(base):] if p.startswith(base) else p)) + '\n').encode())
+                os.fsync(ack_fd)
+                os._exit(17)
         state['count'] += 1
         state['trace'].append([kind, p[len(base):] if p.startswith(base) else 'TMP:' + os.path.basename(p)])
 
@@ -48,7 +53,12 @@ def main():
         def w(*a, **kw):
             if state['on'] and len(a) > path_arg and (pred is None or pred(a, kw)):
                 hit(kind or name, a[path_arg])
-            return orig(*a, **kw)
+            res = orig(*a, **kw)
+            if state.get('die') is not None:
+                os.write(ack_fd, (json.dumps(state['die']) + '\n').encode())
+                os.fsync(ack_fd)
+                os._exit(17)
+            return res
         setattr(mod, name, w)
     for n in ('rename', 'replace', 'remove', 'unlink', 'rmdir', 'mkdir', 'link', 'utime'):
         wrap(os, n)
